@@ -6,7 +6,10 @@ rename destination; the rename source was written only through descriptors close
 (M2) the producer is re-run once per (syscall kind, ordinal) after the start marker with
 inject=<kind>:signal=KILL:when=<n> - killed on entry to that call, so user-space buffers are lost - and a
 reader then judges the published path (absent | complete old version | complete new version);
-(M3) the same positions with error=ENOSPC / error=EIO.
+(M3) the same positions with error=ENOSPC / error=EIO; the trace of each such run is checked by (M1) as well, so an
+error path that falls back to writing the published name in place is seen even when that write then succeeds;
+(M4) "disk full after N bytes": the producer runs under RLIMIT_FSIZE=N set at the marker (real short write, then
+EFBIG), N sampled between 1 byte and the size of the complete output.
 """
 import json
 import os
@@ -36,7 +39,7 @@ ASSUMPTIONS = [
     "producer under PYTHONHASHSEED=0 PYTHONDONTWRITEBYTECODE=1; a run that died before the marker is inconclusive",
     "sqlite journals and other private temporary files are not published paths",
 ]
-REQUIRED = {"traces_checked": 4, "kill_runs": 100, "error_runs": 100, "faults_after_marker": 150,
+REQUIRED = {"traces_checked": 4, "kill_runs": 100, "error_runs": 100, "size_limit_runs": 30, "error_path_traces_checked": 100, "faults_after_marker": 150,
             "reader_saw_old": 10, "reader_saw_new": 10, "reader_saw_absent": 10}
 LEVEL_TEXT = ("Fault enumeration: every file-system call position of the short producers (status, zip, download) and a "
               "sample (quick) / all (thorough, capped) positions of the long ones (make_zip, mw-zip, mw-render) is hit "
@@ -174,6 +177,17 @@ def reader(path):
 
 
 # ---- strace ----------------------------------------------------------------------------------------
+def run_limited(producer, workdir, limit, timeout=180):
+    env = child_env()
+    env["VERIF_FSIZE"] = str(limit)
+    try:
+        p = subprocess.run(["/venv/bin/python", "-m", "vlib.drivers.producers", producer, workdir], env=env, cwd="/verif",
+                           stdout=subprocess.PIPE, stderr=subprocess.PIPE, timeout=timeout)
+        return p.returncode, p.stderr.decode(errors="replace")[-1500:]
+    except subprocess.TimeoutExpired:
+        return None, "timeout"
+
+
 def run_strace(producer, workdir, inject=None, log=None, timeout=180):
     cmd = ["strace", "-f", "-y", "-qq", "-e", TRACE, "-o", log or "/dev/null"]
     if inject:
@@ -324,6 +338,7 @@ def run_shard(desc, R):
     if state != "new":
         R.violation("reader-rejects-unfaulted-output:" + producer, "after an un-faulted run the published path is %s (%s)" % (state, why), {"producer": producer})
         return
+    final_size = os.path.getsize(out)
     R.count("traces_checked")
     R.count("syscalls_traced", len(after))
     for key, what in trace_check(after, os.path.abspath(out)):
@@ -353,17 +368,31 @@ def run_shard(desc, R):
                 if cap is not None and rnd.random() < 0.5:
                     continue
                 jobs.append((errno, kind, n, old))
+    sizes = sorted({v for v in (1, 100, 512, 4095, 4096, 8192, 16384, 65536, final_size // 3, final_size // 2,
+                                final_size - 4097, final_size - 100, final_size - 1) if 0 < v < final_size})
+    if cap is not None:
+        sizes = sorted(rnd.sample(sizes, min(len(sizes), 5)) + [s for s in (final_size - 100,) if s > 0])
+    for old in (False, True):
+        for v in sizes:
+            jobs.append(("FSIZE", "limit", v, old))
     R.count("positions_planned_" + producer, len(jobs))
 
     def one(i_job):
         i, (fault, kind, n, old) = i_job
         wdir = "%s-%d" % (base, i)
         outp = prepare(producer, wdir, old)
+        if fault == "FSIZE":
+            rc, err = run_limited(producer, wdir, n)
+            state, why = reader(outp)
+            shutil.rmtree(wdir, ignore_errors=True)
+            # the limit bit iff the producer did not end with the complete new version
+            return (fault, kind, n, old, rc, rc != 0 or state != "new", state, why, [])
         inj = "%s:signal=KILL:when=%d" % (kind, n) if fault == "KILL" else "%s:error=%s:when=%d" % (kind, fault, n)
         lg = wdir + ".strace"
         rc, err = run_strace(producer, wdir, inject=inj, log=lg)
         hit_after_marker = False
         died_at = None
+        tfind = []
         try:
             cs = parse_log(lg)
             b, a = split_at_marker(cs)
@@ -372,6 +401,8 @@ def run_shard(desc, R):
                 died_at = "%s#%d" % (kind, n)
             else:
                 hit_after_marker = any(("(INJECTED)" in r) for _, _, r in a)
+                if hit_after_marker:
+                    tfind = trace_check(a, os.path.abspath(outp))
         except OSError:
             pass
         state, why = reader(outp)
@@ -380,27 +411,32 @@ def run_shard(desc, R):
             os.unlink(lg)
         except OSError:
             pass
-        return (fault, kind, n, old, rc, hit_after_marker, state, why)
+        return (fault, kind, n, old, rc, hit_after_marker, state, why, tfind)
 
     with ThreadPoolExecutor(max_workers=4) as ex:
         results = list(ex.map(one, list(enumerate(jobs))))
-    for fault, kind, n, old, rc, hit, state, why in results:
+    for fault, kind, n, old, rc, hit, state, why, tfind in results:
         case = {"producer": producer, "fault": fault, "syscall": kind, "ordinal": n, "old_version_present": old}
         if rc is None:
             R.inconc("timeout %r" % (case,))
             continue
-        R.count("kill_runs" if fault == "KILL" else "error_runs")
+        R.count({"KILL": "kill_runs", "FSIZE": "size_limit_runs"}.get(fault, "error_runs"))
+        for k, w in tfind:
+            R.count("error_path_traces_with_finding")
+            R.violation("after-io-error:" + k + ":" + producer, "after %s at %s #%d: %s" % (fault, kind, n, w), case)
+        if fault not in ("KILL", "FSIZE"):
+            R.count("error_path_traces_checked")
         if hit:
             R.count("faults_after_marker")
             R.seen("death_points", "%s:%s:%s#%d" % (producer, fault, kind, n))
         R.case(h64(json.dumps(case, sort_keys=True)), hit, sample=case if fault == "KILL" else None)
         R.count("reader_saw_" + state)
         if state == "bad":
-            key = "partial-file:%s:%s:%s" % (producer, "kill" if fault == "KILL" else "io-error", kind)
+            key = "partial-file:%s:%s:%s" % (producer, {"KILL": "kill", "FSIZE": "disk-full-after-n-bytes"}.get(fault, "io-error"), kind)
             R.violation(key, "after %s at %s #%d (old version %s) the published path is not absent/old/new: %s" % (
                 fault, kind, n, "present" if old else "absent", why), case)
         elif state == "absent" and old:
-            R.violation("old-version-lost:%s:%s:%s" % (producer, "kill" if fault == "KILL" else "io-error", kind),
+            R.violation("old-version-lost:%s:%s:%s" % (producer, {"KILL": "kill", "FSIZE": "disk-full-after-n-bytes"}.get(fault, "io-error"), kind),
                         "after %s at %s #%d the complete previous version is gone and no new one is there" % (fault, kind, n), case)
 
 
@@ -417,8 +453,16 @@ def replay(case):
         b, a = split_at_marker(parse_log(log))
         return [(k + ":" + producer, w, None) for k, w in trace_check(a, os.path.abspath(out))]
     fault, kind, n = case["fault"], case["syscall"], case["ordinal"]
-    inj = "%s:signal=KILL:when=%d" % (kind, n) if fault == "KILL" else "%s:error=%s:when=%d" % (kind, fault, n)
-    rc, err = run_strace(producer, wd, inject=inj)
+    tf = []
+    if fault == "FSIZE":
+        rc, err = run_limited(producer, wd, n)
+    else:
+        inj = "%s:signal=KILL:when=%d" % (kind, n) if fault == "KILL" else "%s:error=%s:when=%d" % (kind, fault, n)
+        log = wd + ".strace"
+        rc, err = run_strace(producer, wd, inject=inj, log=log)
+        if fault != "KILL":
+            b, a = split_at_marker(parse_log(log))
+            tf = [("after-io-error:" + k + ":" + producer, w, None) for k, w in trace_check(a, os.path.abspath(out))]
     state, why = reader(out)
     print("producer exit %r; published path is %s (%s)" % (rc, state, why))
-    return [("partial-file:%s" % producer, why, None)] if state == "bad" else []
+    return tf + ([("partial-file:%s" % producer, why, None)] if state == "bad" else [])
